@@ -530,3 +530,65 @@
         }
         core::mem::forget(w);
     }
+
+    // ---------------------------------------------------------------- XZWriter::write orchestration (modular)
+    static mut HDR_CALLS: u32 = 0;
+    static mut PREP_CALLS: u32 = 0;
+    static mut FIN_SIZES: [u64; 4] = [0; 4];
+    static mut FIN_N: usize = 0;
+    fn hdr_stub<'w, W: Write + 'w>(s: &mut XZWriter<'w, W>) -> Result<()> { unsafe { HDR_CALLS += 1; } s.header_written = true; Ok(()) }
+    /// prepare_next_block by contract (body: C03.xz.unpadded): a block is opened, its byte count starts at 0
+    fn prep_count_stub<'w, W: Write + 'w>(s: &mut XZWriter<'w, W>) -> Result<()> {
+        unsafe { PREP_CALLS += 1; assert!(FIN_N as u32 + 1 == PREP_CALLS); }       // never two open blocks
+        s.writer = Box::new(PayloadW { out: SharedWriter { inner: Rc::clone(&s.original_writer), compressed_bytes_written: Rc::clone(&s.compressed_bytes_written) } });
+        s.block_uncompressed_size = 0;
+        Ok(())
+    }
+    /// finish_current_block by contract (body: C02.xz.finish / C02.xz.index): the open block is closed with an index
+    /// record for its byte count; the count is reset
+    fn fin_count_stub<'w, W: Write + 'w>(s: &mut XZWriter<'w, W>) -> Result<()> {
+        unsafe { assert!(FIN_N < 4 && PREP_CALLS as usize == FIN_N + 1); FIN_SIZES[FIN_N] = s.block_uncompressed_size; FIN_N += 1; }
+        s.block_uncompressed_size = 0;
+        Ok(())
+    }
+
+    /// C18.xz / C02.xz.acct (D11): the block-splitting logic of XZWriter::write for one call of any length n <= 9000 from
+    /// a fresh writer with block_size 4096 (= dictionary size): the stream header is ensured first, blocks are opened and
+    /// closed alternately, every closed block holds 1..=4096 bytes, the blocks partition the n bytes in order, the
+    /// open block holds the rest (<= 4096), the whole buffer is consumed and counted once.
+    #[kani::proof]
+    #[kani::unwind(6)]
+    //@ERR
+    #[kani::stub(XZWriter::write_stream_header, hdr_stub)]
+    #[kani::stub(XZWriter::prepare_next_block, prep_count_stub)]
+    #[kani::stub(XZWriter::finish_current_block, fin_count_stub)]
+    fn c18_xz_write_splits_blocks() {
+        unsafe { HDR_CALLS = 0; PREP_CALLS = 0; FIN_N = 0; crate::vk::pl_reset(1); }
+        let mut o = opts(CheckType::None, 4096);
+        o.block_size = core::num::NonZeroU64::new(4096);
+        let mut w = XZWriter::new(vk::Sink::<8>::new(), o).unwrap();
+        static DATA: [u8; 9000] = [0u8; 9000];
+        let n: usize = vk::any();
+        vk::assume(n >= 1 && n <= 9000);
+        let r = w.write(&DATA[..n]);
+        assert!(matches!(r, Ok(k) if k == n));
+        assert!(unsafe { HDR_CALLS } >= 1);
+        assert!(w.total_uncompressed_pos == n as u64);
+        let closed = unsafe { FIN_N };
+        assert!(unsafe { PREP_CALLS } as usize == closed + 1);
+        let mut sum = w.block_uncompressed_size;
+        assert!(sum >= 1 && sum <= 4096, "open block exceeds the configured block size");
+        let mut i = 0;
+        while i < 4 {
+            if i < closed {
+                let b = unsafe { FIN_SIZES[i] };
+                assert!(b >= 1 && b <= 4096, "closed block exceeds the configured block size");
+                sum += b;
+            }
+            i += 1;
+        }
+        assert!(sum == n as u64);
+        assert!(unsafe { crate::vk::PL_CUR_IN } == n as u64);       // the payload chain(s) received every byte exactly once
+        crate::vcover!(closed == 2);
+        core::mem::forget(w);
+    }
